@@ -276,6 +276,8 @@ def rules(ctx):
                  "converted model handed on unchanged" if not hits else
                  "`%s` rounds / coerces the converted model: coefficients that contain a symbol are dropped, so converting with "
                  "a symbolic weight and substituting differs from converting with the number" % src(hits[0])[:70])
+    from .C14 import record_and_counter_together
+    record_and_counter_together(ctx, 'R16.2')
     T = Taint(ctx)
     nsrc = 0
     for f in P.all_funcs():
